@@ -52,17 +52,26 @@ class Env:
 
 
 class State:
-    __slots__ = ("env", "heap", "pc", "old", "ghost")
+    __slots__ = ("env", "heap", "pc", "old", "ghost", "branches")
 
-    def __init__(self, env, heap, pc, old=None, ghost=None):
+    def __init__(self, env, heap, pc, old=None, ghost=None, branches=None):
         self.env = env
         self.heap = heap
         self.pc = pc
         self.old = old
         self.ghost = ghost if ghost is not None else {}
+        # ids of the entries of pc that are branch conditions (the others are facts: representation
+        # invariants, definitions of fresh symbols, assumed contracts)
+        self.branches = branches if branches is not None else set()
 
     def copy(self):
-        return State(self.env.copy(), self.heap, list(self.pc), self.old, dict(self.ghost))
+        return State(self.env.copy(), self.heap, list(self.pc), self.old, dict(self.ghost), set(self.branches))
+
+    def assume_branch(self, c):
+        if not z3.is_true(c):
+            self.pc.append(c)
+            self.branches.add(c.get_id())
+        return self
 
     def assume(self, *facts):
         for f in facts:
@@ -123,11 +132,15 @@ class Engine:
         self.module_globals = funcinfo.module_globals
         self.cur_line = None
         self.loop_ids = {}
-        k = 0
+        self.comp_ids = {}
+        k = c = 0
         for n in _dfs(funcinfo.node):
             if isinstance(n, (ast.For, ast.While)):
                 self.loop_ids[id(n)] = f"loop#{k}"
                 k += 1
+            elif isinstance(n, (ast.ListComp, ast.SetComp, ast.DictComp, ast.GeneratorExp)):
+                self.comp_ids[id(n)] = f"comp#{c}"
+                c += 1
 
     # ------------------------------------------------------------------------------------------
     # obligations / branching
@@ -159,9 +172,9 @@ class Engine:
             raise Unsupported("branch in specification")
         t = f = None
         if not prune or self.feasible(st, c):
-            t = st.copy().assume(c)
+            t = st.copy().assume_branch(c)
         if not prune or self.feasible(st, z3.Not(c)):
-            f = st.copy().assume(z3.Not(c))
+            f = st.copy().assume_branch(z3.Not(c))
         self.paths += 1
         if self.paths > self.path_budget:
             raise Unsupported("path budget exceeded")
@@ -397,6 +410,10 @@ class Engine:
                 return SeqView(h.dlen(get_ref(v.t)), h.dkeys(get_ref(v.t)), elem_ty=None)
             if ty == "str":
                 raise Unsupported("iteration over str")
+            if ty is None:
+                t = self.static_ty(st, v, ["list", "tuple", "dict", "set"])
+                if t is not None:
+                    return self.seq_of(st, self.with_ty(st, v, t))
         raise Unsupported(f"iteration over {v!r}")
 
     def field_closed(self, st, name):
@@ -409,7 +426,8 @@ class Engine:
         base = z3.Const(f"fld0_{name}", FieldSort)
         r = z3.Int("cf_r")
         v = z3.Select(base, r)
-        st.assume(z3.ForAll([r], z3.Implies(is_ref(v), z3.And(get_ref(v) >= 0, get_ref(v) < self.entry_alloc)),
+        st.assume(z3.ForAll([r], z3.Implies(z3.And(r < self.entry_alloc, is_ref(v)),
+                                            z3.And(get_ref(v) >= 0, get_ref(v) < self.entry_alloc)),
                             patterns=[v]))
 
     # ------------------------------------------------------------------------------------------
